@@ -183,10 +183,12 @@ func roundToTimePrecision(p timePrecision, d time.Duration) time.Duration {
 	}
 }
 
-func (t Time) getComponents() []int {
-	return []int{
-		t.time.Hour(),
-		t.time.Minute(),
-		t.time.Second()*1000000000 + t.time.Nanosecond(),
+// The components are 64 bits wide: seconds and nanoseconds share one
+// component, which does not fit an int on 32-bit platforms.
+func (t Time) getComponents() []int64 {
+	return []int64{
+		int64(t.time.Hour()),
+		int64(t.time.Minute()),
+		int64(t.time.Second())*1000000000 + int64(t.time.Nanosecond()),
 	}
 }
